@@ -3,7 +3,8 @@
    states, and the end-of-run predicate holds at the quiescent states reached. *)
 From Coq Require Import List Bool Arith NArith ZArith Lia.
 From QV Require Import Kernel.GenSpawnTable Kernel.Placement Kernel.Model Kernel.ProofsKernel Kernel.ProofsPin
-     Kernel.Progress Kernel.ProgressInv Kernel.ProgressProofs Kernel.ProgressMeasure Kernel.ProgressEnabled.
+     Kernel.Progress Kernel.ProgressInv Kernel.ProgressProofs Kernel.ProgressMeasure Kernel.ProgressEnabled
+     Kernel.ProgressCinv Kernel.ProgressCompletion Kernel.ProgressFinal.
 From QV Require TQueue.Model TQueue.Proofs.
 Import ListNotations.
 
@@ -69,3 +70,27 @@ Proof. vm_compute. repeat split; eauto. Qed.
 Example spawn_fail_example :
   spawn_call (init 2 2 1024) (Some (0, 0)) r_fork None 0 7 false (Some 12) = SpawnFailed 12 (init 2 2 1024).
 Proof. reflexivity. Qed.
+
+(* the hypotheses of the completion theorem are satisfied by that execution: its last state is reachable, no event of the
+   runtime is enabled (checked over the finitely many candidate events, lifted by stuck_of_check) and nobody is left waiting
+   except main in its final wait; hence the theorem's conclusion holds for it (6 tasks, all TERMINATED / started once / freed) *)
+Example completion_hyps :
+  exists c, crun (cinit 2 2 1024 0 prog1) (snd end1) = Some c /\ stuck c /\ released c /\ c.(ck).(next) = 7.
+Proof.
+  exists (fst end1).
+  assert (R : crun (cinit 2 2 1024 0 prog1) (snd end1) = Some (fst end1)) by (vm_compute; reflexivity).
+  assert (I : cinv (fst end1)).
+  { eapply (reachable_cinv 2 2 1024 0%Z prog1 (snd end1)); [lia|lia|lia|vm_compute; reflexivity|exact R]. }
+  split; [exact R|]. split; [apply stuck_of_check; [exact I|vm_compute; reflexivity]|].
+  split; [|vm_compute; reflexivity].
+  apply released_of_check; [destruct I as ((ND & _) & _); exact (proj1 ND)|vm_compute; reflexivity].
+Qed.
+
+(* a schedule that prefers stealing: 2 shepherds x 1 worker, the idle worker 1.0 steals before main yields *)
+Definition sched3 : list cev := [EBody 0 0; EBody 0 0; ESteal 1 0 0; EDispatch 1 0; EBody 1 0; EMaster 1 0].
+Example steal_then_run :
+  match crun (cinit 2 1 1024 0 [BSpawn r_fork None 0 7 false []; BSpawn r_fork None 0 8 false [BYield]; BYield]) sched3 with
+  | Some c => place_of 1 c.(ck).(places) = Some Freed /\ idle c.(ck) 1 0 = true
+  | None => False
+  end.
+Proof. vm_compute. split; reflexivity. Qed.
